@@ -10,15 +10,26 @@
 (*          content shorter than / as long as / longer than the program    *)
 (*          that is to be written), "missing_parent", "is_directory",      *)
 (*          "unwritable_device" (can be opened, every write fails);        *)
+(*          writable things that exist and are not regular files:          *)
+(*          "dev_null", "dev_stdout" (FILE = /dev/stdout, stdout a pipe:   *)
+(*          the bytes show up on stdout), "fifo" (a named pipe with a      *)
+(*          reader: the bytes show up at the reader), "symlink_file" (to   *)
+(*          an existing regular file), "symlink_dangling" (to a missing    *)
+(*          file in an existing directory);                                *)
 (*          stdout: "none" (writable) or "unwritable"; run mode: "none"    *)
 (*   req    --require M given, marg: how M is spelled on the command line  *)
 (*          (a name, a file name, a path, dotted names, a double suffix);  *)
 (*   nostd  --no-std given                                                 *)
 (*   prog   the program: accepted | rejected, written to have n errors     *)
 (*          (n = 1, 2 and around the 8-bit wrap of an exit status: 255,    *)
-(*          256, 257, 512) | accepted but failing at run time (assert,     *)
-(*          unreachable, other Lua error), and whether it uses the         *)
-(*          standard library                                               *)
+(*          256, 257, 512), or rejected for errors without a source        *)
+(*          location (2 / 3 missing imports, one missing file imported     *)
+(*          from two files, a missing import plus a syntax error)          *)
+(*          | accepted but failing at run time (assert, unreachable, other *)
+(*          Lua error), and whether it uses the standard library;          *)
+(*          "longline": accepted, a string literal of > 8 KiB on one line; *)
+(*          "longline_nl": the same with a line end inside the literal     *)
+(*          (compiles; the Lua does not load)                              *)
 (*                                                                         *)
 (* The machine is what the property's words say, not how sylt is coded:    *)
 (* the command parses its arguments, compiles, then - depending on mode -  *)
@@ -55,15 +66,32 @@ Sinks == <<[mode |-> "run", path |-> "none"], [mode |-> "stdout", path |-> "none
            [mode |-> "file", path |-> "absent"], [mode |-> "file", path |-> "existing_shorter"],
            [mode |-> "file", path |-> "missing_parent"], [mode |-> "file", path |-> "is_directory"],
            [mode |-> "file", path |-> "unwritable_device"], [mode |-> "stdout", path |-> "unwritable"],
-           [mode |-> "file", path |-> "existing_equal"], [mode |-> "file", path |-> "existing_longer"]>>
+           [mode |-> "file", path |-> "existing_equal"], [mode |-> "file", path |-> "existing_longer"],
+           [mode |-> "file", path |-> "dev_null"], [mode |-> "file", path |-> "dev_stdout"],
+           [mode |-> "file", path |-> "fifo"], [mode |-> "file", path |-> "symlink_file"],
+           [mode |-> "file", path |-> "symlink_dangling"]>>
 ExistingPaths == {"existing_shorter", "existing_equal", "existing_longer"}
+\* writable, existing, not a regular file (or reached through a link)
+SpecialPaths == {"dev_null", "dev_stdout", "fifo", "symlink_file", "symlink_dangling"}
+\* after a successful -o FILE the complete program can be read back from FILE (from the reader's end of a fifo)
+ShowsInFile(c) == c.mode = "file" /\ c.path \notin {"dev_null", "dev_stdout"}
+\* ... or arrives on the command's stdout
+ShowsOnStdout(c) == c.mode = "stdout" \/ (c.mode = "file" /\ c.path = "dev_stdout")
 
 Progs == <<[k |-> "acc", n |-> 0, why |-> "none"],
            [k |-> "rej", n |-> 1, why |-> "none"], [k |-> "rej", n |-> 2, why |-> "none"],
            [k |-> "rej", n |-> 255, why |-> "none"], [k |-> "rej", n |-> 256, why |-> "none"],
            [k |-> "rej", n |-> 257, why |-> "none"], [k |-> "rej", n |-> 512, why |-> "none"],
            [k |-> "rt", n |-> 0, why |-> "assert"], [k |-> "rt", n |-> 0, why |-> "unreachable"],
-           [k |-> "rt", n |-> 0, why |-> "luaerr"]>>
+           [k |-> "rt", n |-> 0, why |-> "luaerr"],
+           [k |-> "acc", n |-> 0, why |-> "longline"], [k |-> "rt", n |-> 0, why |-> "longline_nl"],
+           [k |-> "rej", n |-> 2, why |-> "missing2"], [k |-> "rej", n |-> 3, why |-> "missing3"],
+           [k |-> "rej", n |-> 1, why |-> "missing_shared"], [k |-> "rej", n |-> 2, why |-> "missing_plus_syntax"]>>
+
+\* how many different imported files of a program of class c do not exist: each of them is an error (without a
+\* source location) that has to be printed - whatever else the compiler reports
+PlantedMissing(c) == CASE c.why = "missing2" -> 2 [] c.why = "missing3" -> 3
+                       [] c.why \in {"missing_shared", "missing_plus_syntax"} -> 1 [] OTHER -> 0
 
 \* the spellings of M in `--require M` (selector 0 = no --require)
 Mods == <<"c20mod", "c20mod.lua", "c20dir/c20mod.lua", "c20ext.helpers", "c20a.b.c", "c20mod.lua.lua">>
@@ -71,7 +99,7 @@ Mods == <<"c20mod", "c20mod.lua", "c20dir/c20mod.lua", "c20ext.helpers", "c20a.b
 NSinks == Len(Sinks)
 NProgs == Len(Progs)
 NReqs  == Len(Mods) + 1
-NBase  == NSinks * NReqs * 2 * NProgs * 2        \* 10 * 7 * 2 * 10 * 2 = 2800
+NBase  == NSinks * NReqs * 2 * NProgs * 2        \* 15 * 7 * 2 * 16 * 2 = 6720
 
 \* r \in 0..Len(Mods)
 MkCfg(s, r, nostd, p, std) ==
@@ -118,7 +146,7 @@ UniverseWellFormed ==
 Eff(c) == IF c.nostd /\ c.std THEN "rej" ELSE c.pk
 
 CompileSucceeds(c) == Eff(c) # "rej"
-Writable(c) == c.path \in ({"none", "absent"} \cup ExistingPaths)     \* can the requested output be written?
+Writable(c) == c.path \in ({"none", "absent"} \cup ExistingPaths \cup SpecialPaths)     \* can the requested output be written?
 
 \* "compilation (and, in run mode, execution) succeeded", plus: the requested output could be produced
 Success(c) == /\ CompileSucceeds(c)
@@ -132,7 +160,11 @@ ExitFixed(c) == StrictSink \/ ~(c.mode = "stdout" /\ c.path = "unwritable" /\ Co
 InitFs(c) == CASE c.path \in {"none", "unwritable"} -> "none"
                [] c.path = "unwritable_device" -> "device"
                [] c.path = "absent" -> "absent"
-               [] c.path \in ExistingPaths -> "old"
+               [] c.path \in ExistingPaths \cup {"symlink_file"} -> "old"
+               [] c.path = "symlink_dangling" -> "absent"
+               [] c.path = "dev_null" -> "device"
+               [] c.path = "dev_stdout" -> "none"
+               [] c.path = "fifo" -> "fifo"
                [] c.path = "missing_parent" -> "noparent"
                [] c.path = "is_directory" -> "dir"
 
@@ -230,10 +262,11 @@ WriteStdoutFail == /\ pc = "wstdout" /\ ~Writable(cfg)
                    /\ UNCHANGED <<fs, chunk, soprog, sorun, printed, exit>>
 
 WriteFileOk == /\ pc = "wfile" /\ Writable(cfg)
-               /\ fs' = "complete"
+               /\ fs' = IF ShowsInFile(cfg) THEN "complete" ELSE fs
+               /\ soprog' = IF ShowsOnStdout(cfg) THEN "complete" ELSE soprog
                /\ pc' = "exit"
                /\ Step("WriteFileOk")
-               /\ UNCHANGED <<chunk, soprog, sorun, errs, printed, exit>>
+               /\ UNCHANGED <<chunk, sorun, errs, printed, exit>>
 
 WriteFileFail == /\ pc = "wfile" /\ ~Writable(cfg)
                  /\ errs' = Append(errs, "io")
@@ -279,7 +312,7 @@ Done == pc = "done"
 
 TypeOK == /\ cfg \in AllConfigs
           /\ pc \in {"start", "compile", "run", "wstdout", "wfile", "print", "exit", "done"}
-          /\ fs \in {"none", "absent", "old", "noparent", "dir", "device", "complete", "partial"}
+          /\ fs \in {"none", "absent", "old", "noparent", "dir", "device", "fifo", "complete", "partial"}
           /\ chunk \in {"none", "empty", "complete", "partial"}
           /\ soprog \in {"none", "complete", "partial"}
           /\ sorun \in {"none", "all", "prefix"}
@@ -295,12 +328,12 @@ ErrorsPrinted == Done => /\ printed = errs
 
 \* -o FILE: the complete program or FILE untouched - in every state, not only at the end
 AllOrNothing == /\ fs \in {InitFs(cfg), "complete"}
-                /\ Done => ((fs = "complete") <=> (cfg.mode = "file" /\ Success(cfg)))
+                /\ Done => ((fs = "complete") <=> (ShowsInFile(cfg) /\ Success(cfg)))
 
 \* the same for the other two sinks: stdout carries the whole program or none of it, lua gets a whole chunk or nothing
 SinksWhole == /\ soprog \in {"none", "complete"}
               /\ chunk \in {"none", "empty", "complete"}
-              /\ Done => ((soprog = "complete") <=> (cfg.mode = "stdout" /\ Success(cfg)))
+              /\ Done => ((soprog = "complete") <=> (ShowsOnStdout(cfg) /\ Success(cfg)))
               /\ Done => ((chunk = "complete") <=> (cfg.mode = "run" /\ CompileSucceeds(cfg)))
               /\ (chunk # "none") => cfg.mode = "run"
 
